@@ -101,6 +101,8 @@ wrappers that only forward it / build the struct) and is run by whoever calls th
 accepted exactly when `field F` is a reviewed service-code key, so it needs no entry here. -/
 def reviewedLitKinds : List String := [
   "go", "defer", "call",
+  "bound",                                      -- handed to an unexported analysed function that only calls that parameter: the
+                                                -- translator resolved those calls to this value (call edges in the graph), nothing to review
   "timer:time.AfterFunc",
   "sync:sync.Map.Range",
   "arg:apimapper/apientry.CallWithSerialize",   -- completion callback handed to the handler
